@@ -60,7 +60,8 @@ def write_replay(prop, n, clause, l, row):
     os.makedirs(REPLAY_DIR, exist_ok=True)
     path = os.path.join(REPLAY_DIR, '%s-%d.json' % (prop, n))
     with open(path, 'w') as f:
-        json.dump({'property': prop, 'clause': clause, 'event': l, 'kind': 'history',
+        json.dump({'property': prop, 'clause': clause, 'event': l, 'kind': 'repo_test' if row.get('repo_test') else 'history',
+                   'repo_test': row.get('repo_test'),
                    'oplist': row.get('oplist', [])[:], 'failing_event': row['events'][l - 1] if row.get('events') else None},
                   f, indent=1)
     return path
@@ -181,11 +182,15 @@ def check_history(prop, tier, seed):
                                  maxlen=12 if tier == 'thorough' else 8,
                                  odd=0.05 if prop in ('C09', 'C08') else 0.0)
     extra = {}
+    if prop in ('C08', 'C09'):
+        rt = campaign.run_repo_tests()
+        camp = merge(camp, rt)
+        extra['repository_tests_under_recorder'] = {'pytest': rt.get('pytest_summary'), 'traces': len(rt['rows']), 'events': rt['events']}
     if prop in MODEL_PROPS:
         mc, info = model_replay(tier, seed, None if tier == 'thorough' else 4000)
         camp = merge(camp, mc)
         design = [d for d in design if d['model'] != info['model']] + [info]
-        extra = {'model_histories_replayed': info['histories_replayed_on_impl'], 'model_transitions_exported': info['transitions_exported']}
+        extra.update({'model_histories_replayed': info['histories_replayed_on_impl'], 'model_transitions_exported': info['transitions_exported']})
     return report(prop, tier, seed, t0, camp, design,
                   extra_cov={'rule': 'random histories of public calls (profile %s, <=%d ops, alphabet "ab -", palette of '
                                      'conflicting/equal settings); an evaluation is non-trivial when the clause antecedent '
@@ -195,6 +200,16 @@ def check_history(prop, tier, seed):
 def replay(prop, path):
     with open(path) as f:
         doc = json.load(f)
+    if doc.get('kind') == 'repo_test':
+        camp = campaign.run_repo_tests(only=doc['repo_test'])
+        bad = [(l, c) for row in camp['rows'] for l, c in row['fails'] if c.startswith(prop + '.')]
+        for l, c in bad:
+            print('  %s event %d: clause %s fails' % (doc['repo_test'], l, c))
+        if bad:
+            print('VIOLATION property=%s replay=%s' % (prop, path))
+            return 1
+        print('replay: no %s clause fails on the current tree' % prop)
+        return 0
     v, m = campaign.replay_oplist(doc['oplist'])
     bad = [(l, c) for l, c in v['fails'] if c.startswith(prop + '.')]
     for l, c in v['fails']:
@@ -224,7 +239,8 @@ def check_c01(prop, tier, seed):
         g2 = groups[(seed // len(groups) + 1 + seed) % len(groups)]
         cases = history.family_cases([g1] if g1 == g2 else sorted([g1, g2])) + rnd.sample(tri, 400)
     fam = campaign.run_campaign('render_family', len(cases), seed + 1, cases=cases, per_shard_max=4000)
-    merged = merge(camp, fam)
+    rt = campaign.run_repo_tests()
+    merged = merge(camp, fam, rt)
     return report(prop, tier, seed, t0, merged, design,
                   extra_cov={'rule': 'every final value of random histories and every value of the enumerated family of '
                                      'adjacent style states (per group: none/x/y/clear/x+clear/clear+x/x+y on 2-3 characters; '
